@@ -43,6 +43,8 @@ func ErrorByName(n string) error {
 		return io.ErrNoProgress
 	case "canceled":
 		return context.Canceled
+	case "uncomparable":
+		return uncomparable{"device error", "retry failed"}
 	case "unexpected-eof":
 		return io.ErrUnexpectedEOF
 	case "closed-pipe":
@@ -59,7 +61,7 @@ func ErrorByName(n string) error {
 
 // TemporaryNames are error values a caller may be tempted to treat as retryable
 // (Temporary()/Timeout() true, EINTR, deadlines) or that the io package itself defines.
-var TemporaryNames = []string{"eagain", "eintr-wrapped", "timeout", "deadline", "short-write", "no-progress", "canceled"}
+var TemporaryNames = []string{"eagain", "eintr-wrapped", "timeout", "deadline", "short-write", "no-progress", "canceled", "uncomparable"}
 
 var ErrorNames = append([]string{"unexpected-eof", "closed-pipe", "reset", "custom", "wrapped-eof"}, TemporaryNames...)
 
@@ -383,6 +385,63 @@ func (f *FatLink) WriteTo(w io.Writer) (int64, error) {
 		}
 	}
 }
+
+// FileSink behaves like a file opened for writing: an io.WriteSeeker. A Write lands at the
+// current offset (overwriting what is there, zero-filling a gap) and moves the offset.
+// With Append set it behaves like a file opened with O_APPEND: Seek moves and reports the
+// offset, but every Write goes to the end of the file.
+type FileSink struct {
+	*Sink
+	Off    int
+	Append bool
+	Seeks  int
+}
+
+func (f *FileSink) Write(p []byte) (int, error) {
+	before := len(f.Sink.Buf)
+	n, err := f.Sink.Write(p) // call counting and the fault trace live there
+	if f.Append || f.Off == before {
+		f.Off = len(f.Sink.Buf)
+		return n, err
+	}
+	written := append([]byte(nil), f.Sink.Buf[before:before+n]...)
+	f.Sink.Buf = f.Sink.Buf[:before]
+	end := f.Off + len(written)
+	for len(f.Sink.Buf) < f.Off {
+		f.Sink.Buf = append(f.Sink.Buf, 0)
+	}
+	if end > len(f.Sink.Buf) {
+		f.Sink.Buf = append(f.Sink.Buf, make([]byte, end-len(f.Sink.Buf))...)
+	}
+	copy(f.Sink.Buf[f.Off:], written)
+	f.Off = end
+	return n, err
+}
+
+func (f *FileSink) Seek(off int64, whence int) (int64, error) {
+	f.Seeks++
+	var base int64
+	switch whence {
+	case io.SeekStart:
+	case io.SeekCurrent:
+		base = int64(f.Off)
+	case io.SeekEnd:
+		base = int64(len(f.Sink.Buf))
+	default:
+		return 0, errors.New("simnet: invalid whence")
+	}
+	if base+off < 0 {
+		return 0, errors.New("simnet: negative position")
+	}
+	f.Off = int(base + off)
+	return int64(f.Off), nil
+}
+
+// uncomparable is an error whose dynamic type cannot be compared with == (a slice, like
+// go/scanner.ErrorList): code that compares error VALUES panics on two of them.
+type uncomparable []string
+
+func (u uncomparable) Error() string { return "simnet: " + fmt.Sprint([]string(u)) }
 
 // FatSink is a Sink that also implements io.StringWriter, io.ByteWriter and
 // io.ReaderFrom; every path counts as Write calls and honours the fault trace.
